@@ -11,4 +11,10 @@ require (
 	pgregory.net/rapid v1.3.0
 )
 
+require (
+	github.com/rivo/uniseg v0.4.7 // indirect
+	github.com/tidwall/btree v1.8.1 // indirect
+	golang.org/x/exp v0.0.0-20250911091902-df9299821621 // indirect
+)
+
 replace github.com/bufbuild/protocompile => /repo
